@@ -82,7 +82,29 @@ def always(ctx, scale):
         n = len(ser.split()[-1]) // 2 if ser.split() and ser.split()[-1] != '-' else 0
         if size != '32' or n != 32:
             fails.append(('%s reports %s bytes, the writer emitted %d (32 expected)' % (lines[j].split()[0], size, n), {'build': 'ark', 'script': lines[j:j + 2], 'output': out[j:j + 2]}, {'class': 'size', 'op': lines[j].split()[0]}))
-    return len(lines), fails
+    # the bytes do not depend on how the sink accepts them: writers that take 1, 5 or 31 bytes per call receive the same 32 bytes,
+    # and a destination that is too short is an error, never a silent truncation (seed C03n)
+    dl = []
+    for c in [IDENT, T2REP] + pool.base[:3] + pool.derived[:3]:
+        if not pyref.valid(c): continue
+        dl += ['el.ser %s' % E(c), 'el.ser.drip %s' % E(c), 'af.ser %s' % Af(pyref.aff(c)), 'af.ser.drip %s' % Af(pyref.aff(c))]
+    dout = harness.run_script('ark', dl)
+    encl = []
+    for j in range(0, len(dl), 2):
+        ser = dout[j].split()[-1] if dout[j].split() else ''
+        got = dout[j + 1].split()[-1] if dout[j + 1].split() else ''
+        if ser not in ('', '-'): encl += ['enc.ser %s' % ser, 'enc.ser.drip %s' % ser]
+        if got != ser * 3 + '01':
+            fails.append(('%s: through short-writing sinks the writer emitted %s, expected three copies of %s and an error for a 16-byte destination' % (dl[j + 1].split()[0], got, ser),
+                          {'build': 'ark', 'script': dl[j:j + 2], 'output': dout[j:j + 2]}, {'class': 'short_write', 'op': dl[j + 1].split()[0]}))
+    eout = harness.run_script('ark', encl)
+    for j in range(0, len(encl), 2):
+        ser = eout[j].split()[-1] if eout[j].split() else ''
+        got = eout[j + 1].split()[-1] if eout[j + 1].split() else ''
+        if got != ser * 3 + '01':
+            fails.append(('enc.ser.drip: through short-writing sinks the writer emitted %s, expected three copies of %s and an error for a 16-byte destination' % (got, ser),
+                          {'build': 'ark', 'script': encl[j:j + 2], 'output': eout[j:j + 2]}, {'class': 'short_write', 'op': 'enc.ser.drip'}))
+    return len(lines) + len(dl) + len(encl), fails
 
 def run_check(ctx):
     run_property(ctx, 'Props.C03', VO, FILES, build_scripts, search, 'C03 (canonical encoding) is no longer shown to hold', always=always)
